@@ -163,7 +163,7 @@ Definition decl_has_list_request (d : decl) : bool :=
 (* the documented language, per declaration: every property / method in the language, none of the two
    recorded gaps *)
 Definition prop_accepted (p : prop) : bool :=
-  in_language p && negb (uses_float_rules p) && negb (uses_informal_key_listrules p).
+  in_language p && negb (uses_float_rules p).
 Definition decl_in_language (d : decl) : bool :=
   match d with
   | DObject _ props | DOneof props => forallb prop_accepted props
